@@ -61,22 +61,23 @@ type concEvent struct {
 }
 
 type summary struct {
-	Scope        string         `json:"scope"`
-	Cases        int            `json:"cases"`
-	Compilations int            `json:"compilations"`
-	Retargeted   int            `json:"retargeted_values"`
-	Accepted     int            `json:"accepted"`
-	Rejected     int            `json:"rejected"`
-	Events       int            `json:"events"`
-	NonTrivial   int            `json:"distinct_nontrivial"` // distinct (policy, concretisation) with >= 2 different decisions
-	Failures     map[string]int `json:"failures"`
-	Drift        int            `json:"drift"`
-	DriftSample  []string       `json:"drift_sample"`
-	XNetChecked  int            `json:"xnet_crosschecked"`
-	Samples      []interface{}  `json:"samples"`
-	Bridged      int            `json:"programs_over_255"`
-	DumpChecked  int            `json:"dump_checked"`
-	Oversize     int            `json:"oversize_cases_not_judged"`
+	Scope                 string         `json:"scope"`
+	Cases                 int            `json:"cases"`
+	Compilations          int            `json:"compilations"`
+	Retargeted            int            `json:"retargeted_values"`
+	HostOrderCompilations int            `json:"host_order_compilations"`
+	Accepted              int            `json:"accepted"`
+	Rejected              int            `json:"rejected"`
+	Events                int            `json:"events"`
+	NonTrivial            int            `json:"distinct_nontrivial"` // distinct (policy, concretisation) with >= 2 different decisions
+	Failures              map[string]int `json:"failures"`
+	Drift                 int            `json:"drift"`
+	DriftSample           []string       `json:"drift_sample"`
+	XNetChecked           int            `json:"xnet_crosschecked"`
+	Samples               []interface{}  `json:"samples"`
+	Bridged               int            `json:"programs_over_255"`
+	DumpChecked           int            `json:"dump_checked"`
+	Oversize              int            `json:"oversize_cases_not_judged"`
 }
 
 var (
@@ -297,6 +298,10 @@ func runCase(h *polcase.Header, idx int, cs *polcase.Case, c *polcase.Conc, rng 
 	var order binary.ByteOrder = binary.BigEndian
 	if c.LE {
 		order = binary.LittleEndian
+	}
+	if c.HostOrder {
+		order = pkgOrder
+		sum.HostOrderCompilations++
 	}
 	seccomp.VerifSetEndian(order)
 	before, _ := json.Marshal(polJSON(&pol))
@@ -594,6 +599,16 @@ func encAct(a string) string {
 	return a
 }
 
+// archVar is the exported variable of the architecture with this name.
+func archVar(n string) *arch.Info {
+	for _, a := range []*arch.Info{arch.X86_64, arch.X32, arch.I386, arch.ARM, arch.AARCH64} {
+		if a.Name == n {
+			return a
+		}
+	}
+	return archByName(n)
+}
+
 func archByName(n string) *arch.Info {
 	a, err := arch.GetInfo(n)
 	if err != nil {
@@ -603,7 +618,16 @@ func archByName(n string) *arch.Info {
 	return a
 }
 
+// pkgOrder is the byte-order value the package chose when it was initialised (read through the hook and put back), hostLE
+// the order in which this host stores a 64-bit word
+var (
+	pkgOrder binary.ByteOrder
+	hostLE   = binary.NativeEndian.Uint16([]byte{1, 0}) == 1
+)
+
 func main() {
+	pkgOrder = seccomp.VerifSetEndian(binary.LittleEndian)
+	seccomp.VerifSetEndian(pkgOrder)
 	in := flag.String("in", "", "case file written by CompileGen")
 	failFile := flag.String("failures", "", "ndjson file for failure records")
 	sumFile := flag.String("summary", "", "summary json")
@@ -713,6 +737,10 @@ func main() {
 				c.Hi, c.Lo = pickEmb(), pickEmb()
 			}
 			c.LE = (idx+k)%2 == 0
+			c.ArchVia = []string{"", "name", "default"}[(idx/2+k)%3]
+			if (idx+k)%3 == 1 {
+				c.HostOrder, c.LE = true, hostLE
+			}
 			if k > 0 {
 				c.PickUnknown(rng)
 				if k%2 == 1 {
@@ -792,8 +820,16 @@ func doReplay(path string) int {
 		}
 		pol.Syscalls = append(pol.Syscalls, sg)
 	}
-	seccomp.VerifSetArch(&pol, archByName(rec.Conc["arch"].(string)))
-	if le, _ := rec.Conc["little_endian"].(bool); le {
+	switch via, _ := rec.Conc["arch_via"].(string); via {
+	case "name":
+		seccomp.VerifSetArch(&pol, archByName(rec.Conc["arch"].(string)))
+	case "default":
+	default:
+		seccomp.VerifSetArch(&pol, archVar(rec.Conc["arch"].(string)))
+	}
+	if ho, _ := rec.Conc["host_order"].(bool); ho {
+		seccomp.VerifSetEndian(pkgOrder)
+	} else if le, _ := rec.Conc["little_endian"].(bool); le {
 		seccomp.VerifSetEndian(binary.LittleEndian)
 	} else {
 		seccomp.VerifSetEndian(binary.BigEndian)
